@@ -179,7 +179,7 @@ def c04_half_full(rng, tier):
 # C06  dynamic pressure, scaling, translation
 # ---------------------------------------------------------------------------------------
 def _aero_config(rng, tier, ns=None):
-    ns = ns or int(rng.choice([1, 2]))
+    ns = ns or int(rng.choice([1, 2, 3], p=[0.35, 0.4, 0.25]))
     surfaces = []
     for k in range(ns):
         nx, ny = _sizes(rng, tier)
@@ -265,6 +265,76 @@ def c06_scaling(rng, tier):
         req = np.sum(np.array([o0[s["name"]][q] for s in surfaces]) * S) / S.sum()
         if abs(o0[q] - req) > 1e-12 * max(abs(req), 1e-9):
             out.append(_fail("aircraft %s is not the area-weighted combination" % q, o0[q], req, **case))
+    return out
+
+
+@oracle("C06", "rotating_frame_and_reference_area")
+def c06_rotating_and_sref(rng, tier):
+    """the same laws with rotation rates about an off-origin reference point (the onset flow then depends on mesh and reference
+    point) and with a user-specified reference area: density, speed (rates scaled with it), length (rates scaled inversely),
+    translation; aircraft L, D are the sums of the surface values and q S_ref C for whatever reference area is in use"""
+    surfaces = _aero_config(rng, tier)
+    anysym = any(s["symmetry"] for s in surfaces)
+    flow = _flow(rng, omega=rng.normal(size=3) * 0.3, cg=rng.normal(size=3) * np.array([2.0, 0.0 if anysym else 1.0, 1.0]))
+    if not anysym:
+        flow["beta"] = float(rng.uniform(-10, 10))
+    user = float(rng.uniform(5.0, 80.0)) if rng.integers(2) else None
+    kw = dict(rotational=True, user_sref=user)
+    o0 = pipelines.aero_outputs(pipelines.run_aero_point(surfaces, flow, **kw), surfaces)
+    out = []
+    case = dict(shapes=[list(s["mesh"].shape) for s in surfaces], symmetry=[s["symmetry"] for s in surfaces], alpha=flow["alpha"],
+                beta=flow["beta"], omega=flow["omega"].tolist(), cg=np.array(flow["cg"]).tolist(), user_S_ref_total=user)
+
+    def coeffs(o):
+        v = [o["CL"], o["CD"]] + list(o["CM"])
+        for s in surfaces:
+            v += [o[s["name"]][q] for q in ("CL", "CDi", "CDv", "CD")]
+        return np.array(v)
+
+    def forces(o):
+        return np.concatenate([o[s["name"]]["sec_forces"].ravel() for s in surfaces] + [[o["L"], o["D"]]])
+
+    def compare(what, o1, kf, kc=1.0, tol=1e-9, **extra):
+        e = [relerr(forces(o1), kf * forces(o0)), relerr(coeffs(o1), kc * coeffs(o0))]
+        if max(e) > tol:
+            out.append(_fail(what, e, 0.0, **extra, **case))
+    k = float(rng.uniform(0.3, 3))
+    f1 = dict(flow); f1["rho"] = flow["rho"] * k
+    compare("rotating frame: forces do not scale linearly with density / coefficients change",
+            pipelines.aero_outputs(pipelines.run_aero_point(surfaces, f1, **kw), surfaces), k, k=k)
+    f1 = dict(flow); f1["v"] = flow["v"] * k; f1["omega"] = flow["omega"] * k
+    compare("rotating frame: forces do not scale with v^2 (rates scaled with v) / coefficients change",
+            pipelines.aero_outputs(pipelines.run_aero_point(surfaces, f1, **kw), surfaces), k * k, k=k)
+    k = float(rng.choice([rng.uniform(0.1, 0.5), rng.uniform(2, 20)]))
+    s2 = _with_meshes(surfaces, lambda m: m * k)
+    f1 = dict(flow); f1["cg"] = np.array(flow["cg"]) * k; f1["re"] = flow["re"] / k; f1["omega"] = flow["omega"] / k
+    kw2 = dict(kw, user_sref=None if user is None else user * k * k)
+    compare("rotating frame: length scaling (rates scaled inversely, reference area by k^2): forces != k^2 forces or coefficients change",
+            pipelines.aero_outputs(pipelines.run_aero_point(s2, f1, **kw2), s2), k * k, k=k)
+    t = rng.normal(size=3) * 5
+    if anysym:
+        t[1] = 0.0
+    s2 = _with_meshes(surfaces, lambda m: m + t)
+    f1 = dict(flow); f1["cg"] = np.array(flow["cg"]) + t
+    compare("rotating frame: translation of all surfaces and the reference point together changes the results",
+            pipelines.aero_outputs(pipelines.run_aero_point(s2, f1, **kw), s2), 1.0, tol=1e-8, t=t.tolist())
+    # aircraft lift and drag: sums of the surface values, and q S_ref C with the reference area in use
+    q = 0.5 * flow["rho"] * flow["v"] ** 2
+    for name in ("L", "D"):
+        cname = "C" + name
+        # the surface coefficients carry the constant offsets CL0 / CD0 and the viscous and wave estimates on top of the panel forces
+        req = q * sum(o0[s["name"]][cname] * o0[s["name"]]["S_ref"] for s in surfaces)
+        if abs(o0[name] - req) > 1e-10 * max(abs(req), 1e-9):
+            out.append(_fail("aircraft %s is not q times the sum of surface area times surface coefficient" % name, o0[name], req, **case))
+        if abs(o0[name] - q * o0["S_ref_total"] * o0[cname]) > 1e-10 * max(abs(req), 1e-9):
+            out.append(_fail("aircraft %s != q S_ref %s" % (name, cname), o0[name], q * o0["S_ref_total"] * o0[cname], **case))
+    if user is not None and abs(o0["S_ref_total"] - user) > 1e-12 * user:
+        out.append(_fail("user-specified reference area not in use", o0["S_ref_total"], user, **case))
+    S = np.array([o0[s["name"]]["S_ref"] for s in surfaces])
+    for qn in ("CL", "CD"):
+        req = np.sum(np.array([o0[s["name"]][qn] for s in surfaces]) * S) / o0["S_ref_total"]
+        if abs(o0[qn] - req) > 1e-12 * max(abs(req), 1e-9):
+            out.append(_fail("aircraft %s is not the reference-area-weighted combination" % qn, o0[qn], req, **case))
     return out
 
 
